@@ -11,7 +11,8 @@ Inductive hstep := U (o : op) | R (s : strat) (f : option (nat * outcome))
 
 (* result code, aliases written in order, per entity: alias and flags
    [has hash; has cert; has key; has request; cert matches key; cert chains to issuer's current cert; cert matches request;
-    key is the key of the previous state; request is the request of the previous state] *)
+    key is the key of the previous state; request is the request of the previous state;
+    certificate shows the subject and content of the entity's current configuration] *)
 Definition obsT := (nat * list nat * list (nat * list bool))%type.
 Definition has {A} (o : option A) : bool := match o with Some _ => true | None => false end.
 
@@ -34,7 +35,8 @@ Definition flags (prev es : list ent) (e : ent) : list bool :=
                    | Some r, Some p => match f_req p with Some r' => Nat.eqb r r' | None => false end
                    | _, _ => false
                    end in
-    [has (f_hash f); has (f_cert f); has (f_key f); has (f_req f); mtch; chain; mreq; keysame; reqsame]
+    let refl := match f_cert f with Some c => reflects e c | None => false end in
+    [has (f_hash f); has (f_cert f); has (f_key f); has (f_req f); mtch; chain; mreq; keysame; reqsame; refl]
   end.
 
 Definition observe (prev : list ent) (d : dir) : list (nat * list bool) :=
@@ -96,7 +98,8 @@ Fixpoint spec_trace (d : dir) (ss : list hstep) (i : nat) : list (nat * nat) :=
 (* ---- the property statements evaluated directly on what the implementation left behind (no model involved):
    rule 1 (C01) a successful run leaves every entity it wrote with a certificate that chains;
    rule 2 (C10) a run with the same flags (not generate-all) right after a successful fault-free run writes nothing and succeeds;
-   rule 3 (C12) after a successful fault-free default run every entity has a certificate and key material, hashed ones chain;
+   rule 3 (C12) after a successful fault-free default run every entity has a certificate and key material, hashed ones chain
+                and show the current configuration;
    rule 4 (C14) a fault-free run keeps every key (same key, written certificates match it) and every key-less request
                 (same request, no key appears, written certificates carry its key);
    rule 5 (C15) a run whose k-th write fails with an error is not reported as a success (unless it never got to that write) *)
@@ -130,7 +133,7 @@ Definition rules_at (prev : option (hstep * obsT)) (st : hstep) (o : obsT) : lis
         | _ => []
         end)
     ++ (if Nat.eqb res 1 && negb (has f) && is_default s
-           && negb (forallb (fun p => let l := snd p in bit 1 l && (bit 2 l || bit 3 l) && (negb (bit 0 l) || bit 5 l)) es) then [3] else [])
+           && negb (forallb (fun p => let l := snd p in bit 1 l && (bit 2 l || bit 3 l) && (negb (bit 0 l) || (bit 5 l && bit 9 l))) es) then [3] else [])
     ++ (if negb (has f) && negb (forallb (fun p =>
              let a := fst p in let l := snd p in let pl := fl pes a in
              (if bit 2 pl then bit 2 l && bit 7 l && (negb (existsb (Nat.eqb a) w) || bit 4 l) else true)
